@@ -4,10 +4,11 @@ namespace Driver
 open EoVerif EoVerif.Imp
 
 def unTok (s : String) : String := if s == "-" then "" else s
+def mn (s : String) : MName := s.splitOn "."
 
 partial def pStmts : Nat → List String → List Stmt → Option (List Stmt × List String)
   | 0, ts, acc => some (acc.reverse, ts)
-  | n + 1, "S" :: t :: ts, acc => pStmts n ts (.star t :: acc)
+  | n + 1, "S" :: t :: ts, acc => pStmts n ts (.star (mn t) :: acc)
   | n + 1, "F" :: t :: k :: ts, acc => do
     let k ← k.toNat?
     let rec names (k : Nat) (ts : List String) (a : List (String × String)) : Option (List (String × String) × List String) :=
@@ -16,13 +17,13 @@ partial def pStmts : Nat → List String → List Stmt → Option (List Stmt × 
       | k + 1, x :: y :: ts => names k ts ((x, y) :: a)
       | _, _ => none
     let (nm, ts) ← names k ts []
-    pStmts n ts (.fromImp t nm :: acc)
-  | n + 1, "I" :: t :: a :: ts, acc => pStmts n ts (.imp t (if a == "-" then none else some a) :: acc)
+    pStmts n ts (.fromImp (mn t) nm :: acc)
+  | n + 1, "I" :: t :: a :: ts, acc => pStmts n ts (.imp (mn t) (if a == "-" then none else some a) :: acc)
   | n + 1, "D" :: k :: ts, acc => pStmts n ts (.define k :: acc)
   | n + 1, "A" :: k :: ts, acc => do
     let k ← k.toNat?
     pStmts n (ts.drop k) (.setAll (ts.take k) :: acc)
-  | n + 1, "R" :: k :: t :: ts, acc => pStmts n ts (.rebind k t :: acc)
+  | n + 1, "R" :: k :: t :: ts, acc => pStmts n ts (.rebind k (mn t) :: acc)
   | _, _, _ => none
 
 partial def pGraph : Nat → List String → Graph → Option Graph
@@ -30,12 +31,12 @@ partial def pGraph : Nat → List String → Graph → Option Graph
   | n + 1, "M" :: name :: k :: ts, acc => do
     let k ← k.toNat?
     let (ss, ts) ← pStmts k ts []
-    pGraph n ts (⟨name, ss⟩ :: acc)
+    pGraph n ts (⟨mn name, ss⟩ :: acc)
   | _, _, _ => none
 
 def objStr : Obj → String
-  | .module m => "m:" ++ m
-  | .defn h n => "d:" ++ h ++ ":" ++ n
+  | .module m => "m:" ++ m.dotted
+  | .defn h n => "d:" ++ h.dotted ++ ":" ++ n
   | .ext _ => "x"
 
 /-- `imp eval <first> <graph>` → every eolib module's namespace, modules and names sorted -/
@@ -44,8 +45,8 @@ def handleImp : List String → String
     match n.toNat?.bind (fun n => pGraph n ts []) with
     | none => "bad-op"
     | some g =>
-      let (s, fs) := eval g first 200000
-      let mods := (s.mods.filter (fun p => p.1.startsWith "eolib")).toArray.qsort (fun a b => a.1 < b.1) |>.toList
+      let (s, fs) := eval g (mn first) 200000
+      let mods := ((s.mods.filter (fun p => p.1.isEolib)).map (fun p => (p.1.dotted, p.2))).toArray.qsort (fun a b => a.1 < b.1) |>.toList
       let render (p : String × ModState) : String :=
         p.1 ++ " " ++ ",".intercalate ((p.2.ns.toArray.qsort (fun a b => a.1 < b.1)).toList.map (fun (k, v) => k ++ "=" ++ objStr v))
       (match s.err with | some e => "err " ++ (e.replace " " "_") | none => if fs.isEmpty then "ok" else "fuel") ++ " | " ++ " | ".intercalate (mods.map render)
